@@ -16,9 +16,9 @@ type GenCfg struct {
 	Paradigms bool // draw native paradigm subsets and chunk plans (C04)
 	StreamBr  bool // allow stream branch conditions
 	SubModes  []string
-	WfPass    bool // allow passthrough nodes in workflows
-	State     bool // graphs may have state with pre/post handlers
-	PS        bool // bodies may call ProcessState
+	WfPass    bool     // allow passthrough nodes in workflows
+	State     bool     // graphs may have state with pre/post handlers
+	PS        bool     // bodies may call ProcessState
 	InKeys    []string // known keys of a map typed graph input (top level: InputKeys)
 	sub       bool
 }
